@@ -252,16 +252,30 @@ pub fn make_case(subs: &[Vec<L>], stops: &[StopVia], aw: Awaiter, mailbox: Mailb
         spawn.timeout = Some((2, fail));
         role.stopped_sleep = 5;
     }
-    if failing {
+    let slow_start = SLOW_START.with(|t| t.get());
+    if slow_start {
+        // started() takes two ticks: every request of the scene arrives while the actor is
+        // still starting
+        role.started_yields = 1;
+        role.started_sleep = 2;
+    }
+    let by_timeout = failing && FAIL_BY_TIMEOUT.with(|t| t.get());
+    if by_timeout {
+        // the first submitted message outlasts a fatal handler timeout (2 ticks, needs 5)
+        spawn.timeout = Some((2, true));
+        role.work.push((msg_id(0, 0), Work { sleep: 5, ..Work::default() }));
+    } else if failing {
         // the first submitted message makes the handler panic
         role.work.push((msg_id(0, 0), Work { panic: true, ..Work::default() }));
     }
     let desc = format!(
         "stop{}{} mailbox={} failing={} subs={} stops={:?} awaiter={:?}",
         crate::progscene::variant_tag(),
-        match tight {
-            Some(fail) => format!(" [timeout 2 fail={fail}, stopped() takes 5]"),
-            None => String::new(),
+        match (tight, slow_start) {
+            _ if by_timeout => " [the failure is a fatal handler timeout]".to_string(),
+            (Some(fail), _) => format!(" [timeout 2 fail={fail}, stopped() takes 5]"),
+            (None, true) => " [started() takes 2]".to_string(),
+            _ => String::new(),
         },
         mailbox.name(),
         failing,
@@ -272,10 +286,20 @@ pub fn make_case(subs: &[Vec<L>], stops: &[StopVia], aw: Awaiter, mailbox: Mailb
     Case {
         desc,
         // (handlers are instant, so the timeout's select! never has both arms ready)
-        exec: if tight.is_some() { ExecCfg { horizon: 20, select_choice: false, ..ExecCfg::default() } } else { ExecCfg::default() },
+        exec: if tight.is_some() || by_timeout { ExecCfg { horizon: 20, select_choice: false, ..ExecCfg::default() } } else if slow_start { ExecCfg { horizon: 20, ..ExecCfg::default() } } else { ExecCfg::default() },
         bound,
         scene: Box::new(ProgScene { variant: crate::progscene::current_variant(), attach: crate::progscene::attach_for(mailbox), spawn, roles: vec![role], clients, extra: X { failing }, oracle }),
     }
+}
+
+thread_local! {
+    /// the failing variants fail by a fatal handler timeout instead of a panic
+    static FAIL_BY_TIMEOUT: std::cell::Cell<bool> = const { std::cell::Cell::new(false) };
+}
+
+thread_local! {
+    /// started() takes virtual time (see make_case)
+    static SLOW_START: std::cell::Cell<bool> = const { std::cell::Cell::new(false) };
 }
 
 thread_local! {
@@ -325,7 +349,17 @@ fn plain_cases(tier: Tier) -> Vec<Case> {
                 }
             }
         }
-        // failing variants: the handler of the first message panics
+        // failing variants: the handler of the first message panics - or outlasts a fatal timeout
+        for &sv in &[StopVia::AddrStop, StopVia::AddrHalt, StopVia::WeakTryHalt] {
+            for &aw in &awaiters {
+                for p in seqs(&subs_alpha, 1) {
+                    FAIL_BY_TIMEOUT.with(|t| t.set(true));
+                    let c = make_case(&[p], &[sv], aw, mb, true, None);
+                    FAIL_BY_TIMEOUT.with(|t| t.set(false));
+                    v.push(c);
+                }
+            }
+        }
         for &sv in &[StopVia::AddrStop, StopVia::AddrHalt, StopVia::WeakTryHalt] {
             for &aw in &awaiters {
                 for p in seqs(&subs_alpha, 1) {
@@ -376,6 +410,15 @@ fn cases(tier: Tier) -> Vec<Case> {
         let step = if tier == Tier::Thorough { 2 } else { 6 };
         let off = usize::from(fail);
         v.extend(with_tight(fail, || plain_cases(tier)).into_iter().enumerate().filter(|(i, _)| i % step == off).map(|(_, c)| c));
+    }
+    // ... and with a started() hook that takes time, so that everything arrives while the actor
+    // is still starting (every sixth case; thorough: every second)
+    {
+        let step = if tier == Tier::Thorough { 2 } else { 6 };
+        SLOW_START.with(|t| t.set(true));
+        let extra = plain_cases(tier);
+        SLOW_START.with(|t| t.set(false));
+        v.extend(extra.into_iter().enumerate().filter(|(i, _)| i % step == 3 % step).map(|(_, c)| c));
     }
     let nv = crate::progscene::Variant { generous_timeout: true, recreate: true, builder_order: 0 };
     let n = crate::progscene::with_variant(nv, || plain_cases(tier));
